@@ -162,7 +162,7 @@ def spec_args(spec, model):
         return [str(_ev(model, spec[1]))]
     if k == "cells":
         return [str(_ev(model, c)) for c in spec[1]]
-    if k in ("implicit", "none"):
+    if k in ("implicit", "none", "gas"):
         return []
     if k == "seq":
         out = []
